@@ -383,50 +383,50 @@ package ledger
 //@ func (c *ControllerWithEvents) CreateTransaction(ctx context.Context, parameters Parameters[CreateTransaction]) (log *ledger.Log, ret *ledger.CreatedTransaction, hit bool, err error)
 //@   property C31
 //@   modifies c, published, ctrlWrites, lastWriteCtrl, lastIK, lastSchemaVersion, lastDryRun
-//@   ensures err != nil || parameters.DryRun ==> published == old(published) && len(c.atCommit) == len(old(c.atCommit))
-//@   ensures err == nil && !parameters.DryRun ==> published == old(published) + (old(c.hasTx) ? 0 : 1)
+//@   ensures err != nil || parameters.DryRun || hit ==> published == old(published) && len(c.atCommit) == len(old(c.atCommit))
+//@   ensures err == nil && !parameters.DryRun && !hit ==> published == old(published) + (old(c.hasTx) ? 0 : 1)
 //@   ensures c.hasTx == old(c.hasTx)
 
 //@ func (c *ControllerWithEvents) RevertTransaction(ctx context.Context, parameters Parameters[RevertTransaction]) (log *ledger.Log, ret *ledger.RevertedTransaction, hit bool, err error)
 //@   property C31
 //@   modifies c, published, ctrlWrites, lastWriteCtrl, lastIK, lastSchemaVersion, lastDryRun
-//@   ensures err != nil || parameters.DryRun ==> published == old(published) && len(c.atCommit) == len(old(c.atCommit))
-//@   ensures err == nil && !parameters.DryRun ==> published == old(published) + (old(c.hasTx) ? 0 : 1)
+//@   ensures err != nil || parameters.DryRun || hit ==> published == old(published) && len(c.atCommit) == len(old(c.atCommit))
+//@   ensures err == nil && !parameters.DryRun && !hit ==> published == old(published) + (old(c.hasTx) ? 0 : 1)
 //@   ensures c.hasTx == old(c.hasTx)
 
 //@ func (c *ControllerWithEvents) SaveTransactionMetadata(ctx context.Context, parameters Parameters[SaveTransactionMetadata]) (log *ledger.Log, hit bool, err error)
 //@   property C31
 //@   modifies c, published, ctrlWrites, lastWriteCtrl, lastIK, lastSchemaVersion, lastDryRun
-//@   ensures err != nil || parameters.DryRun ==> published == old(published) && len(c.atCommit) == len(old(c.atCommit))
-//@   ensures err == nil && !parameters.DryRun ==> published == old(published) + (old(c.hasTx) ? 0 : 1)
+//@   ensures err != nil || parameters.DryRun || hit ==> published == old(published) && len(c.atCommit) == len(old(c.atCommit))
+//@   ensures err == nil && !parameters.DryRun && !hit ==> published == old(published) + (old(c.hasTx) ? 0 : 1)
 //@   ensures c.hasTx == old(c.hasTx)
 
 //@ func (c *ControllerWithEvents) SaveAccountMetadata(ctx context.Context, parameters Parameters[SaveAccountMetadata]) (log *ledger.Log, hit bool, err error)
 //@   property C31
 //@   modifies c, published, ctrlWrites, lastWriteCtrl, lastIK, lastSchemaVersion, lastDryRun
-//@   ensures err != nil || parameters.DryRun ==> published == old(published) && len(c.atCommit) == len(old(c.atCommit))
-//@   ensures err == nil && !parameters.DryRun ==> published == old(published) + (old(c.hasTx) ? 0 : 1)
+//@   ensures err != nil || parameters.DryRun || hit ==> published == old(published) && len(c.atCommit) == len(old(c.atCommit))
+//@   ensures err == nil && !parameters.DryRun && !hit ==> published == old(published) + (old(c.hasTx) ? 0 : 1)
 //@   ensures c.hasTx == old(c.hasTx)
 
 //@ func (c *ControllerWithEvents) DeleteTransactionMetadata(ctx context.Context, parameters Parameters[DeleteTransactionMetadata]) (log *ledger.Log, hit bool, err error)
 //@   property C31
 //@   modifies c, published, ctrlWrites, lastWriteCtrl, lastIK, lastSchemaVersion, lastDryRun
-//@   ensures err != nil || parameters.DryRun ==> published == old(published) && len(c.atCommit) == len(old(c.atCommit))
-//@   ensures err == nil && !parameters.DryRun ==> published == old(published) + (old(c.hasTx) ? 0 : 1)
+//@   ensures err != nil || parameters.DryRun || hit ==> published == old(published) && len(c.atCommit) == len(old(c.atCommit))
+//@   ensures err == nil && !parameters.DryRun && !hit ==> published == old(published) + (old(c.hasTx) ? 0 : 1)
 //@   ensures c.hasTx == old(c.hasTx)
 
 //@ func (c *ControllerWithEvents) DeleteAccountMetadata(ctx context.Context, parameters Parameters[DeleteAccountMetadata]) (log *ledger.Log, hit bool, err error)
 //@   property C31
 //@   modifies c, published, ctrlWrites, lastWriteCtrl, lastIK, lastSchemaVersion, lastDryRun
-//@   ensures err != nil || parameters.DryRun ==> published == old(published) && len(c.atCommit) == len(old(c.atCommit))
-//@   ensures err == nil && !parameters.DryRun ==> published == old(published) + (old(c.hasTx) ? 0 : 1)
+//@   ensures err != nil || parameters.DryRun || hit ==> published == old(published) && len(c.atCommit) == len(old(c.atCommit))
+//@   ensures err == nil && !parameters.DryRun && !hit ==> published == old(published) + (old(c.hasTx) ? 0 : 1)
 //@   ensures c.hasTx == old(c.hasTx)
 
 //@ func (c *ControllerWithEvents) InsertSchema(ctx context.Context, parameters Parameters[InsertSchema]) (log *ledger.Log, ret *ledger.InsertedSchema, hit bool, err error)
 //@   property C31
 //@   modifies c, published, ctrlWrites, lastWriteCtrl, lastIK, lastSchemaVersion, lastDryRun
-//@   ensures err != nil || parameters.DryRun ==> published == old(published) && len(c.atCommit) == len(old(c.atCommit))
-//@   ensures err == nil && !parameters.DryRun ==> published == old(published) + (old(c.hasTx) ? 0 : 1)
+//@   ensures err != nil || parameters.DryRun || hit ==> published == old(published) && len(c.atCommit) == len(old(c.atCommit))
+//@   ensures err == nil && !parameters.DryRun && !hit ==> published == old(published) + (old(c.hasTx) ? 0 : 1)
 //@   ensures c.hasTx == old(c.hasTx)
 
 //@ func (c *ControllerWithEvents) BeginTX(ctx context.Context, options *sql.TxOptions) (r Controller, tx *bun.Tx, err error)
